@@ -650,7 +650,7 @@ def _families(tier, seed=0):
         elif kind == "linear":
             a, b, bias = rirr(), rirr(), rng.random() < 0.3
             if bias:
-                b = b + "+2x0e"
+                a, b = a + "+1x0e", b + "+2x0e"      # (a bias-only output block is a C08 defect: keep a 0e input)
                 bias = [False] * I(b[:-5]).__len__() + [True]
             F.append(Fam("Linear", tag + f"{a}->{b},biases={bias}",
                          lambda a=a, b=b, bias=bias: o3.Linear(a, b, biases=bias), irr(a)))
@@ -1019,7 +1019,11 @@ def check_options(S, fam, seed, batches):
                 continue
             kinds0 = [(n, _kind(c)) for n, c in m.named_modules() if _kind(c) != "plain"]
             attrs0 = {a: getattr(m, a) for a in ("_specialized_code", "_optimize_einsums") if hasattr(m, a)}
-            y0 = {b: _run(m, xs[b]) for b in batches}
+            try:
+                y0 = {b: _run(m, xs[b]) for b in batches}
+            except Exception:
+                ctx.count("skip:forward-under-options:" + fam.cls)   # belongs to the property of that class
+                continue
             outs[(s, e, j)] = y0
             # flip every default AFTER construction
             e3nn.set_optimization_defaults(specialized_code=not s, optimize_einsums=not e, jit_script_fx=not j)
@@ -1172,6 +1176,27 @@ def run_history(S, fams, hseed, n_ops):
                     ctx.count(f"history-op-error:{op}:{L['fam'].cls}:{_tag(e)}")
                     log.append(f"{op} {L['fam'].name()} -> {_tag(e)}")
                     continue
+                # at birth the derived module must already agree (same keys as the single-op checks)
+                try:
+                    ok, why = _close(L["y"], _run(m2, L["x"]))
+                    err = None
+                except Exception as e:
+                    ok, why, err = False, "call failed", e
+                if not ok:
+                    tag = "mismatch" if err is None else "call-" + _tag(err)
+                    if op == "compile" and (err is not None or why.startswith("shape")):
+                        tag = "tracing-inputs"
+                        try:
+                            x0 = tuple(t[0] for t in L["x"])
+                            if _close(_run(L["m"], x0), _run(m2, x0))[0]:
+                                tag = "batched-input"
+                        except Exception:
+                            pass
+                    S.fail(_key(op, L["fam"].cls, tag), {"history_seed": hseed, "log": log[-30:], "op": op,
+                                                          "module": L["fam"].name(), "detail": why,
+                                                          "error": _tail(err) if err is not None else None})
+                    log.append(f"{op} {L['fam'].name()} -> {tag}")
+                    continue
                 born(L["fam"], m2, L["x"], L["y"], f"{op}:{L['origin']}", frozen=(op == "compile"))
                 log.append(f"{op} of #{live.index(L)} {L['fam'].name()} ({L['origin']})")
                 after = op
@@ -1271,7 +1296,11 @@ def run(ctx):
 
     ok, out = ctx.lake_build(["E3nnVerif.Props.C14"])
     ctx.obligation("build:Props.C14", ok, out[-3000:])
-    ctx.audit(["E3nnVerif.Props.C14"])
+    from common import LEAN
+    mine = [LEAN / "E3nnVerif" / d / f for d, f in (
+        ("Model", "OptDefaults.lean"), ("Model", "CodegenState.lean"), ("Theory", "OptDefaults.lean"),
+        ("Theory", "CodegenState.lean"), ("Props", "C14.lean"))] + [LEAN / "drivers" / "C14.lean"]
+    ctx.audit(["E3nnVerif.Props.C14"], files=mine)    # only this property's sources (others are being edited)
     try:
         variant = part1_options(ctx, report)
         part1_codegen(ctx, report)
